@@ -9,7 +9,7 @@ import (
 
 func main() {
 	if len(os.Args) < 4 {
-		fmt.Fprintln(os.Stderr, "usage: gvgen dump|ble|alias <repo> <outfile>")
+		fmt.Fprintln(os.Stderr, "usage: gvgen dump|ble|alias|drv <repo> <outfile>")
 		os.Exit(2)
 	}
 	switch os.Args[1] {
@@ -19,6 +19,8 @@ func main() {
 		translateBle(os.Args[2], os.Args[3])
 	case "alias":
 		translateAlias(os.Args[2], os.Args[3])
+	case "drv":
+		translateDrv(os.Args[2], os.Args[3])
 	default:
 		fmt.Fprintln(os.Stderr, "unknown subcommand")
 		os.Exit(2)
